@@ -1083,6 +1083,180 @@ theorem second_startnode_witness :
 
 /-! ## the modules shipped with the framework (translated from node/modules/** on every run) -/
 
+/-! ### the App composed with ModList's wrapper -/
+
+private theorem app_calls_run : ∀ (cs : List (Nat × Bool)) (a : App) (tr : List AEv) (s : ML),
+    a.startML = some s → (a.st = .starting ∨ a.st = .normal) → (a.st = .normal ↔ Ev.finish true ∈ phaseEvs true tr) →
+    phaseEvs true (App.runFrom a tr (cs.map fun c => AOp.call true c.1 c.2)).2 = (runFrom s (phaseEvs true tr) cs).2 ∧
+    ((App.runFrom a tr (cs.map fun c => AOp.call true c.1 c.2)).1.st = .normal ↔
+      Ev.finish true ∈ (runFrom s (phaseEvs true tr) cs).2) ∧
+    ((App.runFrom a tr (cs.map fun c => AOp.call true c.1 c.2)).1.st = .starting ∨
+      (App.runFrom a tr (cs.map fun c => AOp.call true c.1 c.2)).1.st = .normal) := by
+  intro cs
+  induction cs with
+  | nil => intro a tr s _ hst hiff; exact ⟨rfl, hiff, hst⟩
+  | cons c cs ih =>
+    intro a tr s hs hst hiff
+    obtain ⟨w, b⟩ := c
+    have hstep : a.step (.call true w b) =
+        (App.onEvents { a with startML := some (s.next b).1 } true (s.next b).2,
+         AEv.ev true (Ev.call w b) :: (s.next b).2.map (AEv.ev true)) := by
+      simp [App.step, hs]
+    have hph : phaseEvs true (tr ++ (AEv.ev true (Ev.call w b) :: (s.next b).2.map (AEv.ev true))) =
+        phaseEvs true tr ++ Ev.call w b :: (s.next b).2 := by
+      rw [phaseEvs_append]; simp [phaseEvs, phaseEvs_evs_same]
+    simp only [List.map_cons, App.runFrom, runFrom, hstep]
+    have := ih (App.onEvents { a with startML := some (s.next b).1 } true (s.next b).2)
+      (tr ++ (AEv.ev true (Ev.call w b) :: (s.next b).2.map (AEv.ev true))) (s.next b).1
+    rw [hph] at this
+    apply this
+    · rcases onEvents_cases true (s.next b).2 { a with startML := some (s.next b).1 } with ⟨_, h⟩ | ⟨_, h⟩ <;> rw [h]
+    · rcases onEvents_cases true (s.next b).2 { a with startML := some (s.next b).1 } with ⟨_, h⟩ | ⟨_, h⟩ <;> rw [h]
+      · exact hst
+      · exact .inr rfl
+    · rcases onEvents_cases true (s.next b).2 { a with startML := some (s.next b).1 } with ⟨hn, h⟩ | ⟨hm, h⟩ <;> rw [h]
+      · simp only [List.mem_append, List.mem_cons, reduceCtorEq, hn, or_false]; exact hiff
+      · simp only [List.mem_append, List.mem_cons, reduceCtorEq, hm, or_true, iff_true]; rfl
+
+/-- **App.Start over ModList's wrapper** (the composition that was left to the level of `next` calls): start the App and
+let the modules do anything at all (`acts`: reports and panics, by any module, in any order); the wrapper of
+ModList.Start turns them into `next` calls (`wcalls`).  Then the App's start-phase log is exactly the wrapper model's
+log `wrun n true acts` - every ModList / wrapper theorem above applies to `App.Start` as it stands - and the App is in
+state Normal afterwards iff that log contains `finish(true)` (else it is still Starting). -/
+theorem app_start_is_wrapper_run (n : Nat) (acts : List MAct) :
+    phaseEvs true (App.run n (.start :: (wcalls acts).map fun c => AOp.call true c.1 c.2)).2 = wrun n true acts ∧
+    ((App.run n (.start :: (wcalls acts).map fun c => AOp.call true c.1 c.2)).1.st = .normal ↔
+      Ev.finish true ∈ wrun n true acts) ∧
+    ((App.run n (.start :: (wcalls acts).map fun c => AOp.call true c.1 c.2)).1.st = .starting ∨
+      (App.run n (.start :: (wcalls acts).map fun c => AOp.call true c.1 c.2)).1.st = .normal) := by
+  have hstep : (App.init n).step .start =
+      (App.onEvents { App.init n with st := .starting, startML := some (filter n true).1 } true (filter n true).2,
+       AEv.begin true :: (filter n true).2.map (AEv.ev true)) := by
+    simp [App.step, App.init]
+  have hph : phaseEvs true ([] ++ (AEv.begin true :: (filter n true).2.map (AEv.ev true))) = (filter n true).2 := by
+    simp [phaseEvs, phaseEvs_evs_same]
+  have := app_calls_run (wcalls acts)
+    (App.onEvents { App.init n with st := .starting, startML := some (filter n true).1 } true (filter n true).2)
+    ([] ++ (AEv.begin true :: (filter n true).2.map (AEv.ev true))) (filter n true).1
+  rw [hph] at this
+  simp only [App.run, App.runFrom, hstep, wrun, run]
+  apply this
+  · rcases onEvents_cases true (filter n true).2 { App.init n with st := .starting, startML := some (filter n true).1 } with ⟨_, h⟩ | ⟨_, h⟩ <;> rw [h]
+  · rcases onEvents_cases true (filter n true).2 { App.init n with st := .starting, startML := some (filter n true).1 } with ⟨_, h⟩ | ⟨_, h⟩ <;> rw [h]
+    · exact .inl rfl
+    · exact .inr rfl
+  · rcases onEvents_cases true (filter n true).2 { App.init n with st := .starting, startML := some (filter n true).1 } with ⟨hn, h⟩ | ⟨hm, h⟩ <;> rw [h]
+    · simp [hn]
+    · simp [hm]
+
+/-- **App.Start completes exactly once, panics included**: when every entered module reports at most once and reports
+or panics (`MDisciplined`, `MComplete`: hypotheses on the modules only), the App's start phase invokes its `finish`
+exactly once, last, with `b`, and the App ends in Normal iff `b = true` - in Starting otherwise, where Stop is refused. -/
+theorem app_start_completes_exactly_once (n : Nat) (acts : List MAct)
+    (hd : MDisciplined n true acts) (hc : MComplete n true acts) :
+    ∃ b, finishes (phaseEvs true (App.run n (.start :: (wcalls acts).map fun c => AOp.call true c.1 c.2)).2) = [b] ∧
+      ((App.run n (.start :: (wcalls acts).map fun c => AOp.call true c.1 c.2)).1.st = .normal ↔ b = true) := by
+  obtain ⟨h1, h2, _⟩ := app_start_is_wrapper_run n acts
+  obtain ⟨b, hb, _, _⟩ := modlist_phase_completes n true acts hd hc
+  refine ⟨b, by rw [h1, hb], ?_⟩
+  rw [h2]
+  have hmem : ∀ (l : List Ev) (x : Bool), Ev.finish x ∈ l ↔ x ∈ finishes l := by
+    intro l x
+    induction l with
+    | nil => simp [finishes]
+    | cons e r ih => cases e <;> simp [finishes, ih]
+  rw [hmem, hb]; simp [eq_comm]
+
+example : MDisciplined 2 true [.report 0 true, .panic 1] ∧ MComplete 2 true [.report 0 true, .panic 1] ∧
+    (App.run 2 (.start :: (wcalls [.report 0 true, .panic 1]).map fun c => AOp.call true c.1 c.2)).1.st = .starting := by
+  refine ⟨?_, ?_, by decide⟩
+  · intro p a q heq
+    have hlen : p.length ≤ 1 := by
+      have := congrArg List.length heq
+      simp at this; omega
+    match p, hlen with
+    | [], _ => simp at heq; obtain ⟨rfl, _⟩ := heq; exact ⟨by decide, by simp, by simp⟩
+    | [a0], _ => simp at heq; obtain ⟨rfl, rfl, _⟩ := heq; exact ⟨by decide, by simp, by simp⟩
+  · intro m hm
+    have : m = 0 ∨ m = 1 := by
+      have h : wrun 2 true [.report 0 true, .panic 1] = [.enter 0, .call 0 true, .enter 1, .call 1 false, .finish false] := by decide
+      rw [h] at hm; simp at hm; exact hm
+    rcases this with rfl | rfl
+    · exact .inl ⟨true, by decide⟩
+    · exact .inr (by decide)
+
+/-! ### optional completion callbacks (`if finish != nil`)
+
+App.Start / App.Stop set the state first and invoke the caller's callback - if there is one - afterwards; StopNode
+likewise.  In the model the App's transitions (`App.step`, `App.onEvents`) never look at the caller's callback: it exists
+only in the caller-level log (`plainLog` / `nodeLog`), from which `dropAbsent` removes the invocations of an absent one. -/
+
+/-- **a plain App's callbacks are the App's reports**: the caller's start / stop callback is invoked exactly when the
+phase's `finish` runs, with the same value, and the App-level log is untouched (the plain-App analogue of
+`node_callbacks_are_app_reports`). -/
+theorem plain_callbacks_are_app_reports (evs : List AEv) :
+    appEvs (plainLog evs) = evs ∧ fins (plainLog evs) = finishes (phaseEvs true evs) ∧
+    finXs (plainLog evs) = finishes (phaseEvs false evs) := by
+  induction evs with
+  | nil => exact ⟨rfl, rfl, rfl⟩
+  | cons e r ih =>
+    obtain ⟨h1, h2, h3⟩ := ih
+    cases e with
+    | begin ph => simp [plainLog, appEvs, fins, finXs, phaseEvs, h1, h2, h3]
+    | ev ph x =>
+      cases x <;> cases ph <;> simp [plainLog, appEvs, fins, finXs, phaseEvs, finishes, h1, h2, h3]
+
+/-- **an absent callback takes nothing else away**: whatever callbacks are left out, the App-level events - every
+module entered, every report, every `finish` of a phase, hence every state change (`App.step` is a function of the App
+and the operation alone) - are exactly those of the run with both callbacks. -/
+theorem absent_callback_same_app (hasS hasX : Bool) (l : List NEv) :
+    appEvs (dropAbsent hasS hasX l) = appEvs l ∧
+    (dropAbsent hasS hasX l).filter (fun e => match e with | .fin _ => false | .finX _ => false | _ => true) =
+      l.filter (fun e => match e with | .fin _ => false | .finX _ => false | _ => true) := by
+  induction l with
+  | nil => exact ⟨rfl, rfl⟩
+  | cons e r ih =>
+    obtain ⟨h1, h2⟩ := ih
+    cases e <;> cases hasS <;> cases hasX <;> simp [dropAbsent, appEvs, h1, h2]
+
+/-- **an absent callback is never invoked, a present one exactly as before** -/
+theorem absent_callback_never_invoked (hasS hasX : Bool) (l : List NEv) :
+    fins (dropAbsent false hasX l) = [] ∧ finXs (dropAbsent hasS false l) = [] ∧
+    fins (dropAbsent true hasX l) = fins l ∧ finXs (dropAbsent hasS true l) = finXs l ∧ dropAbsent true true l = l := by
+  induction l with
+  | nil => exact ⟨rfl, rfl, rfl, rfl, rfl⟩
+  | cons e r ih =>
+    obtain ⟨h1, h2, h3, h4, h5⟩ := ih
+    cases e <;> cases hasS <;> cases hasX <;> simp [dropAbsent, fins, finXs, h1, h2, h3, h4, h5]
+
+/-- **Start without a callback still opens Stop**: for every App and every operation whose events contain the
+start phase's `finish(true)`, a Stop issued afterwards is accepted - and what the caller sees of it with the start
+callback left out differs from the full log by that callback's invocations only (non-vacuous: `start_callback_sees_normal`
+and the example below). -/
+theorem start_without_callback_stop_accepted (a : App) (op : AOp) (hasX : Bool)
+    (h : AEv.ev true (Ev.finish true) ∈ (a.step op).2) :
+    NEv.app (AEv.begin false) ∈ dropAbsent false hasX (plainLog ((a.step op).1.step .stop).2) := by
+  have hb := (start_callback_sees_normal a op h).2
+  have key : ∀ (l : List AEv), AEv.begin false ∈ l → NEv.app (AEv.begin false) ∈ dropAbsent false hasX (plainLog l) := by
+    intro l
+    induction l with
+    | nil => intro h; cases h
+    | cons e r ih =>
+      intro hm
+      cases e with
+      | begin ph =>
+        rcases List.mem_cons.mp hm with h | h
+        · cases h; simp [plainLog, dropAbsent]
+        · simp [plainLog, dropAbsent, ih h]
+      | ev ph x =>
+        rcases List.mem_cons.mp hm with h | h
+        · cases h
+        · cases x <;> cases ph <;> cases hasX <;> simp [plainLog, dropAbsent, ih h]
+  exact key _ hb
+
+example : dropAbsent false true (plainLog ((App.run 1 [.start, .call true 0 true]).1.step .stop).2) =
+    [.app (.begin false), .app (.ev false (.enter 0))] := by decide
+
 /-- **shipped modules complete exactly once**: the body of every `Start`/`Stop` under
 `node/modules` (as translated into `Gen.C11.shipped` from the working tree on this run)
 contains no construct the translator could not interpret, and under every assignment of
